@@ -675,6 +675,8 @@ func fetchEngine(c *Ctx) {
 				fetchExec(c, op)
 			} else if strings.HasPrefix(op, "fetch-overlap ") {
 				fetchOverlap(c, op)
+			} else if strings.HasPrefix(op, "fetch-zipowner ") {
+				fetchZipOwner(c, op)
 			}
 		}
 		return
@@ -687,6 +689,9 @@ func fetchEngine(c *Ctx) {
 		for _, w := range []string{"mirror", "unpack"} {
 			fetchOverlap(c, fmt.Sprintf("fetch-overlap %s %s", fm, w))
 		}
+	}
+	for i, which := range []string{"unix3", "both", "unix2", "unix3", "unix3", "both"} {
+		fetchZipOwner(c, fmt.Sprintf("fetch-zipowner %s %s", which, []string{"direct", "copy", "none", "mount"}[i%4]))
 	}
 	muts := []string{"none", "recompress", "plain", "pad:2", "reorder", "flip", "flip", "flip", "trunc", "trunc", "truncgz", "substitute", "dropentry", "addentry", "addabs", "addabs", "renamebs", "renamebs", "addlink", "twomember", "twomember-same", "adddir", "modattr", "modattr", "modattr-ns", "modcontent"}
 	modes := []string{"direct", "copy", "none", "mount"}
@@ -727,4 +732,90 @@ func fetchEngine(c *Ctx) {
 			fetchExec(c, op)
 		}
 	}
+}
+
+// fetchZipOwner: a zip ware stores every owner twice (Info-ZIP "unix2" block, 16-bit ids; "unix3" block, 32-bit ids; the
+// newer block is the authoritative one). The stored ware is altered in one block only, in both, or in neither: whenever the
+// authoritative owner changed, the ware no longer encodes W — every placement mode and mirror must refuse it, nothing is
+// shelved, nothing reaches the mirror target. Recipe: "fetch-zipowner <unix3|unix2|both> <mode>".
+func fetchZipOwner(c *Ctx, op string) {
+	c.Begin(op)
+	f := strings.Fields(op)
+	which, mode := f[1], f[2]
+	caseCounter++
+	base := filepath.Join(c.Work, fmt.Sprintf("fz%d", caseCounter))
+	defer rmrf(base)
+	src, whDir, wh2, cache := filepath.Join(base, "src"), filepath.Join(base, "wh"), filepath.Join(base, "wh2"), filepath.Join(base, "cache")
+	os.MkdirAll(whDir, 0755)
+	os.MkdirAll(wh2, 0755)
+	os.Setenv("RIO_CACHE", cache)
+	os.Setenv("RIO_BASE", filepath.Join(base, "riobase"))
+	ctx := context.Background()
+	fsx := Fileset{{Name: "", Kind: 'd', Perms: 0755, Uid: 1000, Gid: 1000, Sec: 1e9}, {Name: "bin", Kind: 'd', Perms: 0755, Uid: 1000, Gid: 1000, Sec: 1e9},
+		{Name: "bin/tool", Kind: 'f', Perms: 04755, Uid: 1000, Gid: 1000, Sec: 1e9, Content: []byte("#!/bin/sh\n")}, {Name: "data", Kind: 'f', Perms: 0644, Uid: 1000, Gid: 1000, Sec: 1e9, Content: []byte("d")}}
+	if err := Materialize(fsx, src, nil); err != nil {
+		c.EmitR(op, "skip", "skip")
+		return
+	}
+	fn := funcsFor("zip")
+	id, err := fn.pack(ctx, "zip", src, api.MustParseFilesetPackFilter(losslessPackStr), whAddr("ca", whDir), rio.Monitor{})
+	if err != nil {
+		c.EmitR(op, "skip", "skip")
+		return
+	}
+	warePath := storedWarePath("ca", whDir, id)
+	stored, _ := os.ReadFile(warePath)
+	alt := append([]byte(nil), stored...)
+	n3, n2 := 0, 0
+	for i := 0; i+15 <= len(alt); i++ {
+		if (which == "unix3" || which == "both") && bytes.Equal(alt[i:i+6], []byte{0x75, 0x78, 0x0b, 0x00, 0x01, 0x04}) && alt[i+10] == 0x04 {
+			alt[i+6], alt[i+7], alt[i+8], alt[i+9] = 0, 0, 0, 0 // uid 1000 -> 0
+			n3++
+		}
+		if (which == "unix2" || which == "both") && bytes.Equal(alt[i:i+4], []byte{0x55, 0x78, 0x04, 0x00}) && alt[i+4] == 0xe8 && alt[i+5] == 0x03 {
+			alt[i+4], alt[i+5] = 0, 0
+			n2++
+		}
+	}
+	if (which != "unix2" && n3 == 0) || (which != "unix3" && n2 == 0) {
+		c.H("fetch-zipowner:no-blocks")
+		c.EmitR(op, "skip", "skip")
+		return
+	}
+	os.WriteFile(warePath, alt, 0644)
+	authoritativeChanged := which != "unix2"
+	dst := filepath.Join(base, "dst")
+	id3, err3, pan3 := safeCall(func() (api.WareID, error) {
+		return fn.unpack(ctx, id, dst, api.MustParseFilesetUnpackFilter(losslessUnpackStr), rio.PlacementMode(mode), []api.WarehouseLocation{whAddr("ca", whDir)}, rio.Monitor{})
+	})
+	if mode == "mount" {
+		syscall.Unmount(dst, 0)
+	}
+	res := resTok(id3, err3, pan3)
+	shelves, _ := filepath.Glob(filepath.Join(cache, "zip", "fileset", "*", "*", "*"))
+	switch {
+	case pan3 != "":
+		c.PropFail("fetch-panic", "unpack of a zip with altered owner blocks panicked: "+pan3, op)
+	case authoritativeChanged && err3 == nil:
+		c.PropFail("fetch-accepted-altered", fmt.Sprintf("a zip ware whose %s owner block(s) were rewritten (uid 1000 -> 0, %d+%d places) was accepted as %s (placement %s)", which, n3, n2, id.Hash, mode), op)
+	case authoritativeChanged && len(shelves) > 0:
+		c.PropFail("fetch-shelved-altered", "a refused zip ware left a shelf in the fileset cache", op)
+	case !authoritativeChanged && err3 != nil && catOf(err3) != "rio-hash-mismatch":
+		c.PropFail("fetch-wrong-error", "a zip altered in the superseded unix2 block only is refused with "+res, op)
+	}
+	id5, err5, pan5 := safeCall(func() (api.WareID, error) {
+		return fn.mirror(ctx, id, whAddr("ca", wh2), []api.WarehouseLocation{whAddr("ca", whDir)}, rio.Monitor{})
+	})
+	_ = id5
+	_, finalErr := os.Lstat(storedWarePath("ca", wh2, id))
+	switch {
+	case pan5 != "":
+		c.PropFail("fetch-panic", "mirror of a zip with altered owner blocks panicked: "+pan5, op)
+	case authoritativeChanged && err5 == nil:
+		c.PropFail("mirror-accepted-altered", fmt.Sprintf("mirror accepted a zip ware whose %s owner block(s) were rewritten", which), op)
+	case err5 != nil && finalErr == nil:
+		c.PropFail("mirror-committed-altered", "a failed mirror left an object at the target's final address", op)
+	}
+	c.H("fetch-zipowner:" + which + ":" + strings.Fields(res)[0])
+	c.EmitR(op, "skip", "skip")
 }
